@@ -703,6 +703,7 @@ func start() int {
 	record(first, nil, SiteGo)
 	cur = first
 	active = true
+	everActive = true
 	raceDisable()
 	first.wake <- struct{}{}
 	code := <-mainWake
